@@ -1492,9 +1492,10 @@ BAD_VALUES = ["surrogate", "none-default", "int", "bytes", "int-key"]
 
 
 def oracle_outside_get(qs0, kind, key):
-    """Outside the text domain of request.GET (the theorems assume text): a refused value must be refused by one of
-    the documented-by-behaviour exceptions, must leave QUERY_STRING as it was (never half-written), and removing the
-    offending pair must bring GET and QUERY_STRING back together."""
+    """Outside the text domain of request.GET (the theorems assume text): a value that cannot be written to
+    QUERY_STRING is refused by UnicodeEncodeError / AttributeError / TypeError, and the refusal leaves everything as
+    it was: the view equals what it showed before the write and what a fresh Request over the environ shows,
+    QUERY_STRING is untouched, and a following good write succeeds and is written back."""
     req, env = new_request(qs0)
     before = ref_decode_qs(qs0)
     if isinstance(before, Err):
@@ -1518,15 +1519,20 @@ def oracle_outside_get(qs0, kind, key):
         return "outside:get-bad-value-not-refused", "%s: returned %r" % (what, r)
     if env["QUERY_STRING"] != qs0:
         return "outside:query-string-half-written", "%s: QUERY_STRING became %r" % (what, env["QUERY_STRING"])
-    r2 = catch(g.__delitem__, key)
-    if isinstance(r2, Err):
-        return "outside:cannot-recover", "%s: removing the pair raised %r" % (what, r2)
-    items = [list(kv) for kv in req.GET.items()]
+    held = [list(kv) for kv in g.items()]
+    now = catch(lambda: [list(kv) for kv in req.GET.items()])
     fresh = impl_get(env["QUERY_STRING"])
-    want = [kv for kv in before if kv[0] != key]
-    if items != want or fresh != want:
-        return "outside:cannot-recover", "%s: after removing the pair GET shows %r, QUERY_STRING %r parses to %r, expected %r" % (
-            what, items, env["QUERY_STRING"], fresh, want)
+    if held != before or now != before or fresh != before:
+        return "outside:refused-value-stays-in-view", (
+            "%s: after the refusal (%r) the GetDict shows %r, request.GET %r, a fresh Request %r; before the write: %r"
+            % (what, r, held, now, fresh, before))
+    r2 = catch(g.add, "ok", "1")
+    want = before + [["ok", "1"]]
+    items = catch(lambda: [list(kv) for kv in req.GET.items()])
+    fresh = impl_get(env["QUERY_STRING"])
+    if isinstance(r2, Err) or items != want or fresh != want:
+        return "outside:cannot-recover", ("%s: a following good write returned %r, GET shows %r, QUERY_STRING %r parses "
+                                          "to %r, expected %r" % (what, r2, items, env["QUERY_STRING"], fresh, want))
     return None
 
 
